@@ -720,6 +720,11 @@ def _k4_case_ob(name, files, nl=True, **extra) -> Ob:
                   expect=ob.REFUTE if extra.get('oracle_bug') else ob.CONFIRM)
 
 
+# third line of the three-line documents of the thorough tier: one header of an instruction phase and [act] stand for the six
+K4_THIRD = ('setup', 'act', 'unknown', 'malformed', 'comment', 'blank', 'i', 'm', 'eof', 'di', 'd', 'dclose', 'src', 'esc',
+            'inc:missing', 'inc:main')
+
+
 def _k4_obligations(tier: str) -> List[Ob]:
     import itertools
     R = _k4.ROOT
@@ -743,7 +748,7 @@ def _k4_obligations(tier: str) -> List[Ob]:
             obs.append(_k4_case_ob('K4:A:2-lines:no-final-newline:%d' % i, {R: [chunk, K4_ALL]}, nl=False))
         obs.append(_k4_case_ob('K4:A:setup+2-lines:no-final-newline', {R: ['setup', K4_ALL, K4_ALL]}, nl=False))
         for first in K4_ALL:
-            obs.append(_k4_case_ob('K4:A:3-lines:%s' % first, {R: [first, K4_ALL, K4_ALL]}))
+            obs.append(_k4_case_ob('K4:A:3-lines:%s' % first, {R: [first, K4_ALL, K4_THIRD]}))
         sub = ('setup', 'act', 'unknown', 'comment', 'blank', 'i', 'm', 'eof', 'di', 'dclose', 'src', 'inc:missing')
         for second in K4_ALL:
             obs.append(_k4_case_ob('K4:A:setup+3-lines:%s' % second, {R: ['setup', second, sub, sub]}))
@@ -758,7 +763,7 @@ def _k4_obligations(tier: str) -> List[Ob]:
     phases = _k4.HEADERS if thorough else ('setup', 'act', 'assert')
     body = ('i', 'di', 'src')
     if thorough:
-        blocks = [[phases, 'comment', body], [phases, 'm', 'src', 'eof'], [phases, 'i', 'blank']]
+        blocks = [[phases, 'comment', body], [phases, 'm', 'src', 'eof'], [('setup', 'act', 'cleanup'), 'i', 'blank']]
     else:
         blocks = [[phases, 'comment', body], [phases, 'm', 'src', 'eof']]
     perms = list(itertools.permutations(range(len(blocks))))
@@ -800,21 +805,23 @@ def _k4_obligations(tier: str) -> List[Ob]:
         f1 = ('i', 'assert', 'act', 'src', 'unknown', 'comment', 'inc:main', 'inc:f1', 'inc:f2')
         g = ('i', 'cleanup', 'act', 'malformed', 'inc:up-f1', 'inc:up-main', 'inc:f2-self', 'inc:missing')
         for r0 in rt:
-            obs.append(_k4_case_ob('K4:C:one-level:%s' % r0, {R: [r0, 'inc:f1', rt], F1: [f1, f1], F2: ['i']}))
+            obs.append(_k4_case_ob('K4:C:one-level:%s' % r0, {R: [r0, 'inc:f1', ('i', 'assert', 'comment', 'inc:f1', 'inc:f2', 'm')],
+                                                              F1: [f1, f1], F2: ['i']}))
         g2 = ('i', 'src', 'cleanup', 'inc:up-f1')
         # (split by one selector so that no obligation has more than ~400 file sets)
         for x in ft:
             obs.append(_k4_case_ob('K4:C:one-level:3-lines:%s' % x,
-                                   {R: ['setup', 'inc:f1', ('i', 'assert', 'inc:f1')], F1: [x, ft, ft]}))
+                                   {R: ['setup', 'inc:f1', ('i', 'inc:f1')], F1: [x, ft, f1]}))
             obs.append(_k4_case_ob('K4:C:two-levels:%s' % x,
                                    {R: [('setup', 'assert'), 'inc:f1', ('i', 'inc:f2')],
                                     F1: [x, 'inc:f2', ('i', 'cleanup', 'inc:f2')], F2: [g, g2]}))
+        for x in g:
+            obs.append(_k4_case_ob('K4:C:two-levels-up:%s' % x,
+                                   {R: [('setup', 'assert'), 'inc:f2', ('i', 'inc:f1')], F2: [x, 'inc:up-f1', g], F1: [ft]}))
+        obs.append(_k4_case_ob('K4:C:two-levels-up:no-final-newline',
+                               {R: ['setup', 'inc:f2', ('i', 'inc:f1')], F2: [('i', 'act'), 'inc:up-f1', g], F1: [ft]}, nl=False))
         for nl in (True, False):
             sfx = '' if nl else ':no-final-newline'
-            for x in g:
-                obs.append(_k4_case_ob('K4:C:two-levels-up:%s%s' % (x, sfx),
-                                       {R: [('setup', 'assert'), 'inc:f2', ('i', 'inc:f1')], F2: [x, 'inc:up-f1', g], F1: [ft]},
-                                       nl=nl))
             obs.append(_k4_case_ob('K4:C:empty-included-file' + sfx,
                                    {R: [('setup', 'i'), 'inc:f1', ('i', 'blank', 'inc:f1')], F1: []}, nl=nl))
     obs.append(_k4_case_ob('K4:C:seeded-oracle-error', {R: ['setup', 'inc:f1', ('i', 'comment')], F1: [('i', 'comment')]},
